@@ -99,8 +99,8 @@ theorem sview_freeQuery (k : Nat) : (s.freeQuery k).sview = s.sview := by
   unfold St.freeQuery
   exact sview_detach s k
 
-theorem sview_sqPrep (key : Nat) (q : Query) (srv : Server) (fd : Nat) : (sqPrep key q srv fd s).1.sview = s.sview := by
-  unfold sqPrep
+theorem sview_sqPrep (key : Nat) (q : Query) (srv : Server) (fd : Nat) : (sqPrepare key q srv fd s).1.sview = s.sview := by
+  unfold sqPrepare
   simp only []
   show (St.modConn _ fd _).sview = _
   rw [sview_modConn]
@@ -109,6 +109,29 @@ theorem sview_sqPrep (key : Nat) (q : Query) (srv : Server) (fd : Nat) : (sqPrep
     repeat' split
     all_goals first | exact sview_pop8 s | rfl
   · intro c; rfl
+
+theorem sview_mk (cfg' : Cfg) (alive' : Bool) (now' : Nat) (servers' : List Server) (conns' : List Conn) (qs' : List Query) (nextKey' : Nat) (all' : List Nat) (byQid' : List (Nat × Nat)) (byTimeout' : List Nat) (listCopy' : List (List Nat)) (socks' : List VSock) (nextFd' : Nat) (faults' : List ScriptedFault) (pendingWl' : List Nat) (txs' : List Tx) (cache' : List CacheEntry) (reactions' : List (Nat × Reaction)) (pendingToks' : List Nat) (doneToks' : List Nat) (notifyPending' : Bool) (ev' : List String) (obs' : Obs) (modelFaults' : List String) (obsFaults' : List String) (outOfFuel' : Bool) (destroyed' : Bool) (destroying' : Bool) (selfVariant' : Nat) (lastQid' : Nat) (clients' : List Client) (nextClient' : Nat) (reactSeq' : Nat) (pendingOrder' : List Nat) (requeueArr' : List (Nat × Option Nat)) (writeLog' : List Nat) (notifyLog' : List (Nat × Bool × Bool)) (sockLog' : List (Nat × String)) (accepted' : List (Nat × Nat × Reply)) (picks' : List (Nat × Nat × Bool × List (Nat × Nat))) :
+    St.sview (St.mk cfg' alive' now' servers' conns' qs' nextKey' all' byQid' byTimeout' listCopy' socks' nextFd' faults' pendingWl' txs' cache' reactions' pendingToks' doneToks' notifyPending' ev' obs' modelFaults' obsFaults' outOfFuel' destroyed' destroying' selfVariant' lastQid' clients' nextClient' reactSeq' pendingOrder' requeueArr' writeLog' notifyLog' sockLog' accepted' picks') = ⟨conns'.map ckey, sockLog', notifyLog', nextFd'⟩ := rfl
+
+theorem sview_fold : (⟨s.conns.map ckey, s.sockLog, s.notifyLog, s.nextFd⟩ : SView) = s.sview := rfl
+
+theorem sview_sqLinkPre (key : Nat) (srv : Server) (fd : Nat) (q : Query) :
+    (sqLinkPre key srv fd q s).sview = s.sview := by
+  unfold sqLinkPre
+  cases q.conn with
+  | none =>
+    simp only [sview_mk, sview_fold, sview_modQuery]
+    split
+    · exact sview_draw2snd s
+    · rfl
+  | some old =>
+    simp only [sview_mk, sview_fold, sview_modQuery]
+    rw [sview_modConn]
+    · simp only [sview_mk, sview_fold]
+      split
+      · exact sview_draw2snd s
+      · rfl
+    · intro c; rfl
 
 theorem sview_slog (fd : Nat) (c : String) :
     (s.slog fd c).sview = { s.sview with log := s.sview.log ++ [(fd, c)] } := rfl
@@ -259,6 +282,12 @@ def ocConnect (s2 : St) (fd : Nat) (tcp : Bool) (srv : Server) (f : Option Nat) 
   | some _ => s.emit s!"conn!({fd},{srv.addr}#{port})"
   | none => s.emit s!"conn({fd},{srv.addr}#{port})"
 
+/-- `connect()` failed for good (an error other than "in progress") -/
+def ocFail (f : Option Nat) : Bool :=
+  match f with
+  | some e => !isWouldBlock e
+  | none => false
+
 def ocClose (s : St) (fd : Nat) : St :=
   ((s.modSock fd fun v => { v with isOpen := false }).emit s!"close({fd})").slog fd "close"
 
@@ -279,7 +308,7 @@ theorem openConn_eq (s : St) (tcp : Bool) (srv : Server) :
         let s2 := ocSock (s.fault "socket").2 tcp srv
         let f := (s2.fault "connect").1
         let s3 := ocConnect (s2.fault "connect").2 fd tcp srv f
-        if (match f with | some e => !isWouldBlock e | none => false) then (.error .connrefused, ocClose s3 fd)
+        if ocFail f then (.error .connrefused, ocClose s3 fd)
         else
           match (s3.fault "getsockname").1 with
           | some _ => (.error .connrefused, ocClose (s3.fault "getsockname").2 fd)
@@ -331,7 +360,7 @@ theorem sview_openConn (s : St) (tcp : Bool) (srv : Server) :
     have hnv : s.sview.nextFd = s.nextFd := rfl
     simp only [hn]
     generalize ((ocSock (s.fault "socket").2 tcp srv).fault "connect").1 = f2
-    by_cases hcf : (match f2 with | some e => !isWouldBlock e | none => false) = true
+    by_cases hcf : ocFail f2 = true
     · left
       simp only [hcf, ↓reduceIte, sview_ocClose, sview_ocConnect, sview_faultsnd, sview_ocSock, hn, vopenFail,
         List.append_assoc, hnv]
